@@ -54,7 +54,8 @@ def run(ctx) -> None:
 
     _sink = ctx.rule("C03/_shared-not-owned", "(rows of the shared bookkeeping contract that C03 does not own)", floor=0)
     n0 = len(ctx.instances)
-    check_rows(ctx, _sink, RB, _sink, RB, _sink, _sink)
+    RSC = ctx.rule("C03/non-recursive-scope", "a non-recursive watch reports the root and its direct children only: no kernel watch is installed by the reader on a path where the recursive flag is false (instances shared with C02: otherwise changes inside a sub-directory are reported, outside the watched scope)", floor=2)
+    check_rows(ctx, _sink, RB, _sink, RB, RSC, _sink)
     ctx.instances[n0:] = [i for i in ctx.instances[n0:] if i.rule != _sink]
     del ctx.rules[_sink], ctx.floors[_sink]
     ctx.assumptions += [
